@@ -485,36 +485,6 @@ def tag_get(t, key):
     return None
 
 
-def detection_items(t):
-    """(key, value) pairs of every detection item below a detection definition"""
-    if t[0] == "m":
-        for k, v in t[1]: yield k, v
-    elif t[0] == "l":
-        for x in t[1]: yield from detection_items(x)
-
-
-def vlist(v):
-    return v[1] if v[0] == "l" else [v]
-
-
-TEXT_MODS = {"contains", "startswith", "endswith", "expand", "base64", "base64offset", "wide", "utf16", "utf16be", "windash",
-             "cased", "fieldref", "cidr"}
-
-
-def re_nonstring(doc_t):
-    """a detection item with the `re` modifier, a non-string value and a further modifier that inspects the text"""
-    for sec in ("detection", "filter"):
-        s = tag_get(doc_t, sec)
-        if s is None or s[0] != "m": continue
-        for name, definition in s[1]:
-            for k, v in detection_items(definition):
-                if k[0] != "s": continue
-                ids = k[1].split("|")[1:]
-                if "re" in ids and TEXT_MODS & set(ids) and any(x[0] != "s" for x in vlist(v)):
-                    return True
-    return False
-
-
 def corr_nonstring_ref(doc_t):
     c = tag_get(doc_t, "correlation")
     if c is None: return False
@@ -529,8 +499,6 @@ def known_doc(kind, doc_t, r):
     strict, collect = r["strict"], r["collect"]
     if kind in ("rule", "corr", "filter") and doc_t[0] != "m":
         return "C07-nonmap-document"
-    if kind in ("rule", "filter") and re_nonstring(doc_t):
-        return "C07-re-nonstring-value"
     if kind == "corr" and corr_nonstring_ref(doc_t) and "crash" in (strict[0], collect[0]):
         return "C07-corr-nonstring-rule-reference"
     if kind == "corr" and collect[0] == "sigma" and collect[1] in CORR_RAISE and strict[0] == "sigma":
@@ -554,9 +522,6 @@ def known_coll(c, r):
         if k: return k
     if c["kind"] == "colldef" and r["collect"][0] == "sigma" and r["collect"][1] in ("SigmaRuleNotFoundError", "SigmaTypeError"):
         return "C07-collection-postprocessing-raises"
-    # global/repeat actions build the parsed document from several members: look at the merged text too
-    if any(re_nonstring(m) for m in members if m[0] == "m") or re_nonstring(["m", [kv for m in members if m[0] == "m" for kv in m[1]]]):
-        return "C07-re-nonstring-value"
     return None
 
 
